@@ -128,6 +128,17 @@ CHECKS["C07"] = dict(
     technique="SMT validation of lowered geometry against specification predicates (z3 NRA, radical rewriting)",
     design="§4 C07", engine="E1")
 
+CHECKS["C01"] = dict(
+    level="translation_validation",
+    text="compute_form_data runs on ~30 forms (H1/H(div)/H(curl)/tensor/mixed/symmetric elements, conditionals, math "
+         "functions, geometric quantities, exterior and two-sided interior facets) on intervals, triangles and "
+         "tetrahedra incl. immersed cells, over combinations of the five lowering options and real/complex mode; for "
+         "each integral data entry z3 proves the preprocessed integrand sum equals the original integrand (physical "
+         "fields defined from reference jets by the declared push-forward) times the documented scale factor, for all "
+         "jets and all Jacobians; a raise is an accepted outcome.",
+    technique="SMT translation validation (z3 NRA, radicals/orientation by rewriting) of the whole preprocessing pipeline",
+    design="§4 C01", engine="E1")
+
 NOT_APPLICABLE = {
     "C11": "Signature injectivity is injectivity of string renderings (repr/str, numpy array printing, float "
            "formatting) composed with sha512: CrossHair cannot confirm it, z3/cvc5 string theories answer unknown, "
